@@ -117,7 +117,12 @@ func (r *RequestContext) Request() *heimdall.Request {
 }
 
 func (r *RequestContext) Headers() map[string]string { return r.reqHeaders }
-func (r *RequestContext) Header(name string) string  { return r.reqHeaders[name] }
+
+// Header returns the value of the header with the given name. As for requests
+// received via HTTP, the name is not case-sensitive.
+func (r *RequestContext) Header(name string) string {
+	return r.reqHeaders[http.CanonicalHeaderKey(name)]
+}
 
 func (r *RequestContext) Cookie(name string) string {
 	values, ok := r.reqHeaders["Cookie"]
